@@ -85,4 +85,9 @@ def rule_raw_write(ctx):
     c08.rule_single_writer(ctx, "raw-write")
 
 
-RULES = [rule_literal_flag_agreement, rule_comment_dispatch, rule_effects, rule_raw_write]
+def rule_newline_crossing(ctx):
+    from .common_effects import newline_crossing_rule
+    newline_crossing_rule(ctx)
+
+
+RULES = [rule_literal_flag_agreement, rule_comment_dispatch, rule_effects, rule_raw_write, rule_newline_crossing]
